@@ -29,6 +29,9 @@ pub fn targets() -> Vec<(&'static str, bool, bool, Vec<(Base, &'static str)>)> {
         ("/proc/mounts", true, false, vec![(Base::Root, "mounts")]),
         ("/proc/net", true, false, vec![(Base::Root, "net"), (Base::Root, "net/dev")]),
         ("/proc", false, true, vec![(Base::Root, "uptime"), (Base::SelfP, "status")]),
+        // the *targets* of procfs's own ordinary links (mounts -> self/mounts, net -> self/net)
+        ("/proc/self/mounts", false, false, vec![(Base::Root, "mounts"), (Base::SelfP, "mounts")]),
+        ("/proc/self/net", false, true, vec![(Base::Root, "net"), (Base::Root, "net/dev"), (Base::SelfP, "net/dev")]),
     ]
 }
 
